@@ -12,6 +12,8 @@ pub const MAX_DATA: usize = 10 * 1024 * 1024;
 pub struct Rec {
     pub ty: u8,
     pub data: Vec<u8>,
+    /// record-layer version in the header handed to the real parser (the reference never looks at it)
+    pub ver: u16,
 }
 
 #[derive(Clone, Debug, PartialEq, Eq, Hash)]
@@ -32,14 +34,14 @@ fn hdr_for(ty: u8, len: usize) -> TlsRecordHeader {
 }
 
 thread_local! {
-    /// record-layer version carried by the records handed to the real parser (scenario S3 sweeps it);
-    /// the reference never looks at it
-    pub static HDR_VERSION: std::cell::Cell<u16> = const { std::cell::Cell::new(0x0303) };
+    /// set while a history contains hand-built records longer than a record can be on the wire: the clause
+    /// "the buffer never reaches 10 MiB" is stated for records within the record-length cap only
+    pub static OVERSIZE_RECORDS: std::cell::Cell<bool> = const { std::cell::Cell::new(false) };
 }
 
 pub fn raw<'a>(r: &'a Rec) -> TlsRawRecord<'a> {
     let mut hdr = hdr_for(r.ty, r.data.len());
-    hdr.version = TlsVersion(HDR_VERSION.with(|v| v.get()));
+    hdr.version = TlsVersion(r.ver);
     TlsRawRecord { hdr, data: &r.data }
 }
 
@@ -292,7 +294,7 @@ pub fn compare(
     if unchanged && (obs.buf != before.0 || obs.ty != before.1) {
         return Some(format!("{:?} must leave the state unchanged but the buffer / type changed", op));
     }
-    if obs.buf.len() >= MAX_DATA {
+    if obs.buf.len() >= MAX_DATA && !OVERSIZE_RECORDS.with(|o| o.get()) {
         return Some(format!("buffer reached {} bytes (>= 10 MiB)", obs.buf.len()));
     }
     None
